@@ -13,7 +13,9 @@
 (*   operation of the alphabet is taken once as the FINAL operation of a    *)
 (*   behaviour (done' = TRUE), which is then emitted.                       *)
 (* Mode "all": every behaviour of exactly N operations (also used with      *)
-(*   -simulate for seeded random walks).                                    *)
+(*   -simulate for seeded random walks: TLC evaluates the invariants on all *)
+(*   successors of every state of a walk, so a walk of N - 1 operations is  *)
+(*   emitted once with every operation of the alphabet as its final one).   *)
 (*                                                                          *)
 (* An emitted behaviour carries, per operation, the arguments, the          *)
 (* specified outcome and the situation classes the operation falls in       *)
@@ -24,11 +26,13 @@
 EXTENDS EvalMem, Json, IOUtils
 
 CONSTANTS Mode, N,
+          BuildChanges, \* TRUE: every operation but the final one changes the memory or the pointer table (random walks)
           MaxDepth,     \* frames on the stack
           MaxAllocs,    \* allocations per frame
           MaxPtrs,      \* size of the pointer table
           MaxIds,       \* bound on the id counter
-          AllocSizes, Offsets, WriteLens, Seeds, ReadSizes, CopySizes
+          AllocSizes, Offsets, WriteLens, Seeds, ReadSizes, CopySizes,       \* argument alphabet of the operations that build a behaviour
+          PAllocSizes, POffsets, PWriteLens, PReadSizes, PCopySizes          \* ... of its final operation
 
 VARIABLES hist, done
 
@@ -101,7 +105,10 @@ Tags(l) ==
       [] l.op = "copy"       -> CopyTags(l)
       [] OTHER               -> <<>>
 
-Entry == last' @@ [out |-> out', tags |-> Tags(last')]
+(* the situation classes are attached to the final operation of a behaviour   *)
+(* only: the driver counts behaviours per class of their final operation     *)
+Entry(final) == IF final THEN last' @@ [out |-> out', tags |-> Tags(last')]
+                ELSE last' @@ [out |-> out']
 
 (* ---- sweep over the memory of the current state -------------------------- *)
 RECURSIVE SweepFrom(_)
@@ -118,19 +125,21 @@ SweepFrom(p) ==
 PtrArgs == 0..Len(ptrs)          \* every pointer handed out and the first unknown index
 
 (* `final`: the operation ends the behaviour, so the structural bounds (which *)
-(* only keep the explored graph finite) do not apply to it                    *)
+(* only keep the explored graph finite) do not apply to it, and its arguments *)
+(* come from the richer alphabet                                              *)
+Alpha(final, build, probe) == IF final THEN probe ELSE build
 Step(final) ==
-    \/ \E n \in AllocSizes :
+    \/ \E n \in Alpha(final, AllocSizes, PAllocSizes) :
           /\ final \/ (Len(Top.allocs) < MaxAllocs /\ Len(ptrs) < MaxPtrs)
           /\ Allocate(n)
     \/ (final \/ (Len(stack) < MaxDepth /\ idc < MaxIds)) /\ PushFrame
     \/ PopFrame
-    \/ \E p \in PtrArgs, k \in Offsets :
+    \/ \E p \in PtrArgs, k \in Alpha(final, Offsets, POffsets) :
           /\ final \/ Len(ptrs) < MaxPtrs \/ ~Known(p)
           /\ OffsetBy(p, k)
-    \/ \E p \in PtrArgs, l \in WriteLens, s \in Seeds : Write(p, Pat(l, s))
-    \/ \E p \in PtrArgs, n \in ReadSizes : Read(p, n)
-    \/ \E t, f \in PtrArgs, n \in CopySizes : Copy(t, f, n)
+    \/ \E p \in PtrArgs, l \in Alpha(final, WriteLens, PWriteLens), s \in Seeds : Write(p, Pat(l, s))
+    \/ \E p \in PtrArgs, n \in Alpha(final, ReadSizes, PReadSizes) : Read(p, n)
+    \/ \E t, f \in PtrArgs, n \in Alpha(final, CopySizes, PCopySizes) : Copy(t, f, n)
     \/ \E p \in PtrArgs : Get(p)
 
 Finals == CASE Mode = "check" -> {FALSE}
@@ -142,8 +151,9 @@ MCInit == Init /\ hist = <<>> /\ done = FALSE
 MCNext == /\ ~done
           /\ \E final \in Finals :
                 /\ Step(final)
+                /\ (BuildChanges /\ ~final) => mem' # mem
                 /\ done' = final
-                /\ hist' = IF Mode = "check" THEN hist ELSE Append(hist, Entry)
+                /\ hist' = IF Mode = "check" THEN hist ELSE Append(hist, Entry(final))
 
 MCSpec == MCInit /\ [][MCNext]_<<vars, hist, done>>
 
